@@ -154,7 +154,7 @@ Step(st, lb) ==
                    R([st EXCEPT ![c] = [ex |-> TRUE, vals |-> y.vals, cap |-> y.cap, inl |-> FALSE,
                                         pri |-> x.pri /\ y.pri],
                                 ![d] = [MovedFrom(d) EXCEPT !.pri = TRUE]], NoRet)
-    [] lb.op = "assignIlist"  -> Growing(st, c, lb.vs, NoRet)
+    [] lb.op \in {"assignIlist", "assignOpIlist"} -> Growing(st, c, lb.vs, NoRet)      \* assign(il) and v = il
     [] lb.op = "assignN"      -> Growing(st, c, Rep(lb.n, a), NoRet)
     [] lb.op = "assignRange"  ->
          IF lb.it = "input" THEN GrowingEach(st, c, [x EXCEPT !.vals = <<>>], lb.vs, NoRet, Ident)
@@ -187,7 +187,7 @@ Step(st, lb) ==
          ELSE IF x.inl THEN R(Upd(st, c, [x EXCEPT !.pri = TRUE]), NoRet)
          ELSE IF sz <= NInl[c] THEN R(Upd(st, c, [x EXCEPT !.cap = NInl[c], !.inl = TRUE, !.pri = TRUE]), NoRet)
          ELSE R(Upd(st, c, [x EXCEPT !.cap = sz]), NoRet)
-    [] lb.op = "swap"         ->
+    [] lb.op \in {"swap", "freeSwap"} ->      \* member swap and the free function amc::swap
          \* same type: the two objects exchange their whole state (for FixedCapacityVector: contents only)
          IF c = d THEN R(st, NoRet)
          ELSE LET y == st[d]
@@ -222,6 +222,14 @@ Step(st, lb) ==
          ELSE Growing(st, c, s \o lb.vs, NoRet)
     [] lb.op = "appendIlist"  -> Growing(st, c, s \o lb.vs, NoRet)
     [] lb.op = "eraseVal"     -> R(Upd(st, c, [x EXCEPT !.vals = RemoveVal(s, lb.v)]), ValR(CountVal(s, lb.v)))
+    \* erase_if (C++20): removes every element with v % 2 = n, returns how many
+    [] lb.op = "eraseIf"      -> R(Upd(st, c, [x EXCEPT !.vals = SelectSeq(s, LAMBDA e : e % 2 # lb.n)]),
+                                   ValR(Cardinality({i \in 1..sz : s[i] % 2 = lb.n})))
+    \* writes through the non const accessors: operator[], at, front, back, data(), begin(), rbegin()
+    [] lb.op \in {"setIndex", "setData", "setIter", "setRIter"} -> R(Upd(st, c, [x EXCEPT !.vals[lb.n + 1] = lb.v]), NoRet)
+    [] lb.op = "setAt"        -> IF lb.n >= sz THEN R(st, ExcR("out_of_range")) ELSE R(Upd(st, c, [x EXCEPT !.vals[lb.n + 1] = lb.v]), NoRet)
+    [] lb.op = "setFront"     -> R(Upd(st, c, [x EXCEPT !.vals[1] = lb.v]), NoRet)
+    [] lb.op = "setBack"      -> R(Upd(st, c, [x EXCEPT !.vals[sz] = lb.v]), NoRet)
 
     \* observers (the state is unchanged: C20 (a))
     [] lb.op = "at"           -> IF lb.n >= sz THEN R(st, ExcR("out_of_range")) ELSE R(st, ValR(s[lb.n + 1]))
@@ -234,6 +242,7 @@ Step(st, lb) ==
     [] lb.op = "le"           -> R(st, BoolR(~LexLess(st[d].vals, s)))
     [] lb.op = "gt"           -> R(st, BoolR(LexLess(st[d].vals, s)))
     [] lb.op = "ge"           -> R(st, BoolR(~LexLess(s, st[d].vals)))
+    [] lb.op = "maxSize"      -> R(st, ValR(Limit(c)))      \* N of a FixedCapacityVector, else the maximum of size_type
     [] lb.op = "iterate"      -> R(st, ValR(sz))  \* walks begin..end and rbegin..rend: number of steps, -1 if the two disagree
     \* the object is moved to another address (memcpy when it claims to be trivially relocatable): C14
     [] lb.op = "relocate"     -> R(st, NoRet)
@@ -244,10 +253,11 @@ Step(st, lb) ==
 MutOps1 == {"emplaceF", "emplaceBackF", "assignIlist", "assignN", "assignRange", "insert1", "insert1rv", "emplace", "insertN", "insertRange",
             "insertIlist", "emplaceBack", "pushBack", "pushBackRv", "popBack", "popBackVal", "erase1", "eraseRange",
             "resize", "resizeVal", "clear", "reserve", "shrinkToFit", "appendN", "appendNVal", "appendRange",
-            "appendIlist", "eraseVal"}
-ObsOps1 == {"at", "index", "front", "back", "iterate", "relocate"}
+            "appendIlist", "eraseVal", "eraseIf", "assignOpIlist", "setIndex", "setData", "setIter", "setRIter", "setAt", "setFront", "setBack"}
+SetOps == {"setIndex", "setData", "setIter", "setRIter", "setAt", "setFront", "setBack"}
+ObsOps1 == {"at", "index", "front", "back", "iterate", "relocate", "maxSize"}
 CtorOps1 == {"ctorDefault", "ctorCount", "ctorCountVal", "ctorRange", "ctorIlist"}
-BinSame == {"assignCopy", "assignMove", "swap", "eq", "ne", "lt", "le", "gt", "ge"}
+BinSame == {"assignCopy", "assignMove", "swap", "freeSwap", "eq", "ne", "lt", "le", "gt", "ge"}
 AliasOps == {"emplaceF", "emplaceBackF", "pushBack", "insert1", "insertN", "emplace", "emplaceBack", "resizeVal", "assignN", "appendNVal"}
 AllOps == MutOps1 \cup ObsOps1 \cup CtorOps1 \cup BinSame \cup {"ctorCopy", "ctorMove", "ctorFromVector", "destroy", "swap2"}
 AllOpsBig == AllOps \cup {"reserveBig"}
@@ -295,7 +305,7 @@ OpLabels(st, c, o, Vals, MaxLen, MaxCnt, Its, RLens, Alias, Near) ==
                                     /\ AllocId[c] = AllocId[e]}}
       [] OTHER -> {}
   ELSE
-    CASE o = "assignIlist"  -> {Lbl(o, c, 0, 0, 0, 0, 0, "", vs) : vs \in Ranges}
+    CASE o \in {"assignIlist", "assignOpIlist"} -> {Lbl(o, c, 0, 0, 0, 0, 0, "", vs) : vs \in Ranges}
       [] o = "assignN"      -> {Lbl(o, c, 0, 0, n, a[1], a[2], "", <<>>) : n \in CtorCnts, a \in Srcs}
       [] o = "assignRange"  -> {Lbl(o, c, 0, 0, 0, 0, 0, it, vs) : it \in Its, vs \in Ranges}
       [] o \in {"insert1", "emplace"} ->
@@ -315,7 +325,7 @@ OpLabels(st, c, o, Vals, MaxLen, MaxCnt, Its, RLens, Alias, Near) ==
       [] o = "eraseRange"   -> {Lbl(o, c, 0, pq[1], pq[2], 0, 0, "", <<>>) : pq \in {w \in Pos \X Pos : w[1] <= w[2]}}
       [] o = "resize"       -> {Lbl(o, c, 0, 0, n, 0, 0, "", <<>>) : n \in Sizes}
       [] o = "resizeVal"    -> {Lbl(o, c, 0, 0, n, a[1], a[2], "", <<>>) : n \in Sizes, a \in Srcs}
-      [] o \in {"clear", "shrinkToFit", "iterate", "relocate", "destroy"} -> {Lbl(o, c, 0, 0, 0, 0, 0, "", <<>>)}
+      [] o \in {"clear", "shrinkToFit", "iterate", "relocate", "destroy", "maxSize"} -> {Lbl(o, c, 0, 0, 0, 0, 0, "", <<>>)}
       [] o = "reserve"      -> {Lbl(o, c, 0, 0, n, 0, 0, "", <<>>) :
                                   n \in {m \in 0..MaxLen + 1 : m <= MaxLen \/ Flav[c] = "fixed"} \cup
                                         (IF Near > 0 /\ Limit(c) <= 300 THEN (Limit(c) - 1)..Min(Limit(c) + 1, MaxSz[c]) ELSE {})}
@@ -326,6 +336,10 @@ OpLabels(st, c, o, Vals, MaxLen, MaxCnt, Its, RLens, Alias, Near) ==
       [] o = "appendRange"  -> {Lbl(o, c, 0, 0, 0, 0, 0, it, vs) : it \in Its, vs \in {r \in Ranges : Fits(sz + Len(r))}}
       [] o = "appendIlist"  -> {Lbl(o, c, 0, 0, 0, 0, 0, "", vs) : vs \in {r \in Ranges : Fits(sz + Len(r))}}
       [] o = "eraseVal"     -> {Lbl(o, c, 0, 0, 0, v, 0, "", <<>>) : v \in Vals}
+      [] o = "eraseIf"      -> {Lbl(o, c, 0, 0, n, 0, 0, "", <<>>) : n \in 0..1}
+      [] o \in {"setIndex", "setData", "setIter", "setRIter"} -> {Lbl(o, c, 0, 0, n, v, 0, "", <<>>) : n \in PosE, v \in Vals}
+      [] o = "setAt"        -> {Lbl(o, c, 0, 0, n, v, 0, "", <<>>) : n \in {m \in (IF big THEN {0, sz - 1, sz} ELSE 0..sz) : m <= MaxSz[c]}, v \in Vals}
+      [] o \in {"setFront", "setBack"} -> IF sz > 0 THEN {Lbl(o, c, 0, 0, 0, v, 0, "", <<>>) : v \in Vals} ELSE {}
       [] o = "at"           -> {Lbl(o, c, 0, 0, n, 0, 0, "", <<>>) : n \in {m \in (IF big THEN {0, sz - 1, sz, sz + 1} ELSE 0..sz + 1) : m <= MaxSz[c]}}
       [] o = "index"        -> {Lbl(o, c, 0, 0, n, 0, 0, "", <<>>) : n \in PosE}
       \* v = std::move(v) leaves a std::vector in a valid but unspecified state: not part of the contract
@@ -357,7 +371,7 @@ PristineImpliesInline(st) ==
   \A c \in Slots : st[c].ex /\ st[c].pri => st[c].cap = Cap0(c) /\ st[c].inl = Inl0(c)
 
 \* C07 on the design: capacity never decreases except through shrink_to_fit, a move or a swap
-CapExempt == {"shrinkToFit", "ctorMove", "assignMove", "swap", "swap2", "ctorFromVector", "destroy"}
+CapExempt == {"shrinkToFit", "ctorMove", "assignMove", "swap", "freeSwap", "swap2", "ctorFromVector", "destroy"}
 CapMonotoneStep(st, lb, st2) ==
   \A c \in Slots : (st[c].ex /\ st2[c].ex /\ lb.op \notin CapExempt) => st2[c].cap >= st[c].cap
 ReserveStep(st, lb, st2) == (lb.op \in {"reserve", "reserveBig"} /\ Flav[lb.c] # "fixed") => st2[lb.c].cap >= lb.n
